@@ -177,6 +177,10 @@ class IxWorld(object):
                               and tb in d.get("tags", u"").split())
                 if got != want:
                     n = -1
+            # the index object's own idea of the schema is the committed one (nothing of a cancelled
+            # writer's add_field / remove_field may be left in it)
+            if s.up_to_date() and sorted(self.ix.schema.names()) != sorted(s.schema.names()):
+                n = -1
             if rd.doc_count() != len(docs) or rd.doc_count_all() < len(docs) \
                     or rd.has_deletions() != (rd.doc_count_all() != rd.doc_count()):
                 n = -1
